@@ -195,5 +195,5 @@ def check(run):
         p, e2 = inject(rng, p, f2)
         cases.append(mk_case(p, f"{f1}+{f2}", expect=e1, nfaults=2))
     return asmfam.run_family(run, "C13", cases, oracle,
-                             "a well-formed base program (backward+forward reference in one operand, instruction macro with local label and parameter, expression macro, definitions before or after use) with 0, 1 or 2 injected faults out of 20 kinds at a random position; oracle: well-formed => ok, one fault => the matching error kind naming the offender; distinct = distinct sources",
+                             "a well-formed base program (backward+forward reference in one operand, instruction macro with local label and parameter, expression macro, definitions before or after use) with 0, 1 or 2 injected faults out of 32 kinds (incl. surplus arguments, out-of-range %push inside and outside macros, an undeclared label argument spelled like a macro-local label) at a random position; oracle: well-formed => ok, one fault => the matching error kind naming the offender; distinct = distinct sources",
                              "well-formedness and error kinds")
